@@ -16,12 +16,12 @@ variable {c : Ctx} {pv : Option Vars} {rank : String → Nat} {F : Nat}
 
 local notation "alt0" => recompute c.schema c.frags pv
 
-theorem genP_complete (hw : flatWorld c.world = true) (hac : Acyclic c.frags rank) (hfr : FragsOK c pv) (fuel : Nat)
+theorem genP_complete (hac : Acyclic c.frags rank) (hfr : FragsOK c pv) (fuel : Nat)
     (hle : fuel ≤ F) (ih : GenP c pv rank F fuel) :
-    ∀ dfr t rt fname fid fp p v st mst rS stS, (∀ x ∈ fp.nodes, NodeOK c pv rank x.1 x.2) → flatV v = true →
+    ∀ dfr t rt fname fid fp p v st mst rS stS, (∀ x ∈ fp.nodes, NodeOK c pv rank x.1 x.2) →
     complete c (fuel + 1) dfr t rt fname fp.fieldNodes p v st = (rS, stS) → rS ≠ .fuelOut → stS.kfThunk = st.kfThunk →
     CompleteRel c pv rank F t v rS (mComplete c alt0 (fuel + 1) dfr t rt fid fp p v mst).1 := by
-  intro dfr t rt fname fid fp p v st mst rS stS hn hv h hr hkf
+  intro dfr t rt fname fid fp p v st mst rS stS hn h hr hkf
   cases hfo : funcOf v with
   | some r =>
     -- a func: S forces it here, M wraps it
@@ -60,7 +60,6 @@ theorem genP_complete (hw : flatWorld c.world = true) (hac : Acyclic c.frags ran
         simp only [complete] at h
         exact hbad (.inr rfl) st h rfl
       | ok v' =>
-        simp only [flatV, Bool.and_eq_true, Option.isNone_iff_eq_none] at hv
         simp only [complete] at h
         have hk1 := kfExt_complete c fuel true t rt fname fp.fieldNodes p v' st
         rcases hS : complete c fuel true t rt fname fp.fieldNodes p v' st with ⟨r1, st1⟩
@@ -71,7 +70,7 @@ theorem genP_complete (hw : flatWorld c.world = true) (hac : Acyclic c.frags ran
           simp only [Prod.mk.injEq] at h
           obtain ⟨rfl, rfl⟩ := h
           have hF := complete_fuel_le c hle true t rt fname fp.fieldNodes p v' st _ _ hS (by simp)
-          exact ⟨_, rfl, .deferred ⟨hn, hv.2, hv.1, fname, st, _, _, hF, hkf, .inl rfl⟩⟩
+          exact ⟨_, rfl, .deferred ⟨hn, fname, st, _, _, hF, hkf, .inl rfl⟩⟩
         | fail =>
           simp only [Prod.mk.injEq] at h
           obtain ⟨rfl, rfl⟩ := h
@@ -86,7 +85,7 @@ theorem genP_complete (hw : flatWorld c.world = true) (hac : Acyclic c.frags ran
               omega
           simp only [hnn, Bool.false_eq_true, if_false] at hkf
           have hF := complete_fuel_le c hle true t rt fname fp.fieldNodes p v' st _ _ hS (by simp)
-          exact .inr ⟨_, rfl, by simp [funcOf], hnn, hn, hv.2, hv.1, fname, st, _, _, hF, hkf, .inr ⟨rfl, hnn, rfl⟩⟩
+          exact .inr ⟨_, rfl, by simp [funcOf], hnn, hn, fname, st, _, _, hF, hkf, .inr ⟨rfl, hnn, rfl⟩⟩
         | fuelOut =>
           simp only [Prod.mk.injEq] at h
           exact absurd h.1.symm hr
@@ -171,13 +170,12 @@ theorem genP_complete (hw : flatWorld c.world = true) (hac : Acyclic c.frags ran
             · simp only [Prod.mk.injEq] at h
               rw [← h.2] at hkf
               exact hkf
-        have hc := ih.complete dfr inner rt fname fid fp p v st mst _ _ hn hv hS (by simp) hk
+        have hc := ih.complete dfr inner rt fname fid fp p v st mst _ _ hn hS (by simp) hk
         simp only [CompleteRel, hM1] at hc
         obtain ⟨x, hx, hsv⟩ := hc
         subst hx
-        have hnd : ∀ cl, x ≠ .deferred cl := by
-          have := (flatP (c := c) (alt := alt0) hw fuel).complete dfr inner rt fid fp p v mst hv x (by rw [hM1])
-          exact this.2 hfo
+        have hnd : ∀ cl, x ≠ .deferred cl :=
+          mComplete_not_deferred fuel dfr inner rt fid fp p v mst hfo x (by rw [hM1])
         by_cases hj : j = .null
         · subst hj
           have hx := (sv_null_iff hsv hnd).2 rfl
@@ -200,7 +198,7 @@ theorem genP_complete (hw : flatWorld c.world = true) (hac : Acyclic c.frags ran
       | fail =>
         simp only [Prod.mk.injEq] at h
         obtain ⟨rfl, rfl⟩ := h
-        have hc := ih.complete dfr inner rt fname fid fp p v st mst _ _ hn hv hS (by simp) hkf
+        have hc := ih.complete dfr inner rt fname fid fp p v st mst _ _ hn hS (by simp) hkf
         simp only [CompleteRel, hM1] at hc
         rcases hc with hc | ⟨cl, _, hne, _, _⟩
         · subst hc; exact .inl rfl
@@ -218,7 +216,6 @@ theorem genP_complete (hw : flatWorld c.world = true) (hac : Acyclic c.frags ran
         | list xs =>
           simp only [listOf]
           simp only at h
-          simp only [flatV] at hv
           have hk1 := kfExt_items c fuel dfr item rt fname fp.fieldNodes p xs 0 [] st
           rcases hS : completeItems c fuel dfr item rt fname fp.fieldNodes p xs 0 [] st with ⟨r1, st1⟩
           rw [hS] at h hk1
@@ -227,7 +224,7 @@ theorem genP_complete (hw : flatWorld c.world = true) (hac : Acyclic c.frags ran
           | ok js =>
             simp only [Prod.mk.injEq] at h
             obtain ⟨rfl, rfl⟩ := h
-            have hi := ih.items dfr item rt fname fid fp p xs 0 [] [] st mst _ _ hn hv .nil hS (by simp) hkf
+            have hi := ih.items dfr item rt fname fid fp p xs 0 [] [] st mst _ _ hn .nil hS (by simp) hkf
             simp only [hM1] at hi
             obtain ⟨ys, hy, hsv⟩ := hi
             subst hy
@@ -235,7 +232,7 @@ theorem genP_complete (hw : flatWorld c.world = true) (hac : Acyclic c.frags ran
           | fail =>
             simp only [Prod.mk.injEq] at h
             obtain ⟨rfl, rfl⟩ := h
-            have hi := ih.items dfr item rt fname fid fp p xs 0 [] [] st mst _ _ hn hv .nil hS (by simp) hkf
+            have hi := ih.items dfr item rt fname fid fp p xs 0 [] [] st mst _ _ hn .nil hS (by simp) hkf
             simp only [hM1] at hi
             subst hi
             exact .inl rfl
@@ -276,12 +273,12 @@ theorem genP_complete (hw : flatWorld c.world = true) (hac : Acyclic c.frags ran
 
 /-- phase one of M (memo-free instance) against the algorithm, with deferred values, outside D-04c, for every fuel up to the
 request's -/
-theorem genP (hw : flatWorld c.world = true) (hac : Acyclic c.frags rank) (hfr : FragsOK c pv) :
+theorem genP (hac : Acyclic c.frags rank) (hfr : FragsOK c pv) :
     ∀ fuel, fuel ≤ F → GenP c pv rank F fuel
   | 0, _ => genP_zero
   | fuel + 1, hle =>
-    have ih := genP hw hac hfr fuel (Nat.le_of_succ_le hle)
-    ⟨genP_groups fuel ih, genP_field hw fuel ih, genP_complete hw hac hfr fuel (Nat.le_of_succ_le hle) ih, genP_items fuel ih⟩
+    have ih := genP hac hfr fuel (Nat.le_of_succ_le hle)
+    ⟨genP_groups fuel ih, genP_field fuel ih, genP_complete hac hfr fuel (Nat.le_of_succ_le hle) ih, genP_items fuel ih⟩
 
 end gen
 
